@@ -3,7 +3,7 @@
    derivative of the residual along any differentiable curve of evaluation points. *)
 From Coq Require Import Reals Lra Lia ZArith List String Bool.
 From Coquelicot Require Import Coquelicot.
-From Verif Require Import lib.Dual gen.AldiGen model.AldiTree.
+From Verif Require Import lib.Dual lib.DualR gen.AldiGen model.AldiTree model.AldiDen model.AldiMaps.
 Import ListNotations.
 Local Open Scope R_scope.
 
